@@ -23,7 +23,7 @@ func init() {
 			"(R2) debug twins: for every function that exists in both the debug and the non-debug build with different bodies, deleting from the debug body the call statements whose callee exists only in the debug build yields the non-debug body; " +
 			"(R3) every function that exists only in the debug build (and every debug body whose non-debug twin is empty) is pure: no store to non-local memory, no call with such an effect, every path ends in return or panic; " +
 			"(R4) the two mask implementations have the same method set (names and signatures modulo the receiver), the two tag files define the same symbols, and no other file names a concrete mask type except through the alias (frozen exception: the lock uses the 64-bit mask in every configuration); " +
-			"(R5) a missing component column is never silently absorbed: comparisons of a column pointer with nil occur only in the functions whose documented contract is to report absence. " +
+			"(R5) a missing component column is never silently absorbed: comparisons of a column pointer with nil occur only in the functions whose documented contract is to report absence (stated on paths: on the nil outcome nothing with an effect happens before absence is reported, a panic, or the next loop element); (R6) the assertions that exist only in the debug build test and panic themselves and call nothing that has a panic of its own (an alive or lock check inside a helper would make the debug build reject calls the release build accepts). " +
 			"Not decided: that the two mask implementations compute the same function for ids < 64; that the non-debug build panics on exactly the calls on which a debug assertion fires.",
 		TrustedBase: []string{"go/packages loading with build tags", "go/types object and signature printing", "go/printer for structural AST comparison"},
 		Rules: []Rule{
@@ -31,8 +31,79 @@ func init() {
 			{ID: "C20/R2+R3", Run: c20r2r3, Min: 1, CrossConfig: true},
 			{ID: "C20/R4", Run: c20r4, Min: 1, CrossConfig: true},
 			{ID: "C20/R5", Run: c20r5, Min: 1},
+			{ID: "C20/R6", Run: c20r6, Min: 0},
 		},
 	})
+}
+
+// c20r6: the debug-only assertions assert one thing.
+//
+// "The debug tag only changes panic messages" needs every assertion that exists only in the debug build to fail
+// exactly where the release build fails too. A structural necessary condition: an assertion function (declared in a
+// file constrained to the debug tag, without results, without stores) contains its own test and panic and calls
+// nothing that can panic for another reason - a helper with an explicit panic of its own (an alive check, a lock
+// check) would make the debug build reject calls the release build accepts.
+func c20r6(c *core.Ctx) {
+	m := c.M
+	debugFile := func(f *core.Func) bool {
+		if f.File == nil {
+			return false
+		}
+		for _, cg := range f.File.Comments {
+			for _, cm := range cg.List {
+				if strings.HasPrefix(cm.Text, "//go:build") && cm.Pos() < f.File.Package {
+					t := cm.Text
+					return strings.Contains(t, "ark_debug") && !strings.Contains(t, "!ark_debug")
+				}
+			}
+		}
+		return false
+	}
+	panics := func(g *core.Func) ast.Node {
+		var at ast.Node
+		core.InspectNoLits(g.Body, func(n ast.Node) bool {
+			if call, ok := n.(*ast.CallExpr); ok && m.IsBuiltin(call, "panic") && at == nil {
+				at = call
+			}
+			return at == nil
+		})
+		return at
+	}
+	for _, f := range m.Funcs {
+		if !debugFile(f) || f.Sig == nil || f.Sig.Results().Len() != 0 || f.Obj == nil || f.Obj.Exported() || len(c.Eff.Stores(f)) != 0 || panics(f) == nil {
+			continue
+		}
+		subject := f.Name + ": debug-only assertion"
+		bad := ""
+		seen := map[*core.Func]bool{}
+		var visit func(g *core.Func, depth int, chain string)
+		visit = func(g *core.Func, depth int, chain string) {
+			if seen[g] || depth > 3 || bad != "" {
+				return
+			}
+			seen[g] = true
+			core.InspectNoLits(g.Body, func(n ast.Node) bool {
+				call, ok := n.(*ast.CallExpr)
+				if !ok || bad != "" {
+					return true
+				}
+				if k, cal, _ := m.Callee(call); k == core.CallStatic && cal != nil && cal.Body != nil {
+					if p := panics(cal); p != nil {
+						bad = fmt.Sprintf("%s%s, which has a panic of its own at %s", chain, cal.Name, c.At(p.Pos()))
+						return false
+					}
+					visit(cal, depth+1, chain+cal.Name+" -> ")
+				}
+				return true
+			})
+		}
+		visit(f, 0, "")
+		if bad == "" {
+			c.OK("C20/R6", subject, c.At(f.Pos()), "tests and panics itself; calls nothing with a panic of its own")
+		} else {
+			c.Violation("C20/R6", subject, c.At(f.Pos()), fmt.Sprintf("%s exists only in the debug build and calls %s; the debug build would panic under a condition the release build does not test, so the tag changes more than messages", f.Name, bad))
+		}
+	}
 }
 
 func normMask(s string) string {
